@@ -234,7 +234,7 @@ def check_mode(ctx, P, MV):
         bad = None
         if name == "fcntl":
             vals = [(0, False), (NB, True), (NB | 0o2000, True), (0o2000, False)]  # O_APPEND = 02000
-            isval = is_var_load([l for l in fn.local_by_did.values() if l["name"] == "val"][0]["did"])
+            isval = is_var_load(_vaarg_local(fn))
             for v, nonblock in vals:
                 env = Env(P)
                 atom = env.base(fn, [(is_param_load(fn, "cmd"), MV["F_SETFL"]), (isval, v), (is_param_load(fn, "fd"), 3)])
@@ -253,7 +253,7 @@ def check_mode(ctx, P, MV):
             # *(int*)val: the pointed-to request
             isreq = lambda n: (n.k == "ImplicitCastExpr" and n.ck == "LValueToRValue" and strip(n) is not None
                                and strip(n).k == "UnaryOperator" and strip(n).op == "*")
-            isvalp = is_var_load([l for l in fn.local_by_did.values() if l["name"] == "val"][0]["did"])
+            isvalp = is_var_load(_vaarg_local(fn))
             for v, nonblock in ((0, False), (1, True), (5, True)):
                 env = Env(P)
                 atom = env.base(fn, [(is_param_load(fn, "request"), MV["FIONBIO"]), (isreq, v), (isvalp, 4096), (is_param_load(fn, "d"), 3)])
@@ -737,6 +737,15 @@ def check_setup(ctx, P, MV):
         if not chain or we.dominated_by(wl[0].node, nodeset([c.node for c in chain])) is not None:
             bad = bad or "the previous waiters are not chained behind the new one (they would be lost)"
     o.check(bad is None, "direction table + list push", bad, site=we.loc, construct="wait_for_event registration")
+
+
+def _vaarg_local(fn):
+    """the local that receives the variadic argument (`long val = va_arg(args, long)`)"""
+    from rules import locals_defined_by
+    ds = locals_defined_by(fn, lambda m: m.k == "VAArgExpr")
+    if len(ds) != 1:
+        raise AnalysisBroken("%s: the local holding the variadic argument was not found" % fn.name)
+    return ds[0]
 
 
 def check_table_size(ctx, P, MV):
